@@ -104,7 +104,7 @@ def run(tier, seed):
                                  params, 'random %d clients' % nclients, nproc=8)
     chk.sample({'recorded': [a for a, s in batch[0]][:6]})
     # canary
-    tr = [list(x) for x in batch[0]]
+    tr = [list(x) for x in rerecord(params, [('Hello', (1,)), ('RequestName', (1, 1, False, False, False))])]
     for j, (a, st) in enumerate(tr):
         if a.get('n') == 'RequestName' and 'c' in a:
             out = [list(x) for x in st['out']]
